@@ -16,6 +16,8 @@ def run(ctx):
         "output re-parses to its inputs for all values.")
     K = make_kinds(ctx.model)
     flow.f1(ctx)
+    flow.f_defaults(ctx)
+    flow.f_build_args(ctx)
     flow.f2(ctx, K)
     k1(ctx, K)
     k2_k3(ctx, K)
